@@ -411,7 +411,7 @@ func TestVerifC16(t *testing.T) {
 		{Cap: 2, Frames: 2, Reqs: []string{"info", "snap"}, Reconnect: "truncated"},
 		{Cap: 1, Frames: 3, Reqs: []string{"snap"}},
 	}
-	r.SetDeadline(map[bool]time.Duration{false: 120 * time.Second, true: 45 * time.Minute}[r.Thorough()])
+	r.SetDeadline(map[bool]time.Duration{false: 20 * time.Minute, true: 45 * time.Minute}[r.Thorough()])
 	per := map[string]interface{}{}
 	completed := 0
 	if !r.Thorough() {
